@@ -1,3 +1,78 @@
-import GlueVerif.Model.Stats
+import GlueVerif.Lemmas.C10Stat
+import GlueVerif.Lemmas.C10Hist
+/-!
+# C10 — statistics and histograms equal their definition regardless of chunking or views
+
+Property theorems only; helper lemmas live in `GlueVerif.Lemmas.C10*`.  Every statement is about the
+executable definitions of `GlueVerif.Model.Stats` that the driver `Drivers/C10.lean` runs against
+`Data.compute_statistic` / `Data.compute_histogram` on every check.  `uStat` is at the same time the
+model of `glue.utils.array.compute_statistic` and the textbook definition (every output cell = the
+NaN-aware reducer over the kept values of that cell, `nan` when none).
+-/
 namespace GlueVerif.C10
+open GlueVerif.ArrayUtil GlueVerif.Stats
+
+/-! ## minimal sub-array (bounding box) + NaN padding -/
+
+/-- **Bounding box + padding = full computation.** For every statistic and filter setting, every
+data array, every view (integers and slices with any positive step, any number of axes), every
+selection mask `m`, every set of reduced axes and every in-range output cell `k`: the value the
+minimal-subarray path produces (bounding box of the mask from `any` along each axis, view
+recombination, statistic on the sub-array, NaN padding; or the bail-out for non-unit steps; or the
+all-NaN result for an empty mask) is the statistic of the whole viewed arrays under the viewed mask. -/
+theorem stat_bbox_eq (cfg : Cfg) (data : Idx → Val) (v : List VItem) (red : List Bool)
+    (m : Idx → Bool) (k : Idx) (hl : red.length = (viewShape' v).length)
+    (hk : inRange k (keptShape red (viewShape' v)) = true) :
+    (implDirect.implMasked cfg data v red m).cell k =
+      (uStat cfg true red (viewShape' v) (fun j => data (viewIdx v j))
+        (fun j => inRange j (viewShape' v) && m (viewIdx v j))).cell k :=
+  Lemmas.C10.implMasked_cell cfg data v red m k hl hk
+
+/-- … and it has the documented shape: the kept axes of the viewed array. -/
+theorem stat_bbox_shape (cfg : Cfg) (data : Idx → Val) (v : List VItem) (red : List Bool)
+    (m : Idx → Bool) :
+    (implDirect.implMasked cfg data v red m).shape = keptShape red (viewShape' v) :=
+  Lemmas.C10.implMasked_shape cfg data v red m
+
+-- the hypotheses are satisfiable by a non-trivial instance (3-d view with an integer, 2 reduced axes)
+example : [true, false].length = (viewShape' [.sl 1 2 1, .int 0, .sl 0 3 1]).length ∧
+    inRange [2] (keptShape [true, false] (viewShape' [.sl 1 2 1, .int 0, .sl 0 3 1])) = true := by
+  decide
+
+/-! ## histograms -/
+
+/-- **Bin totals.** For every data list, selection, weights, bin count `n ≥ 1` and range (given in
+either order; in log space with positive ends): the histogram has `n` bins and the bins add up to the
+number (weight sum) of selected non-NaN values inside the closed range — whatever the nudge does to
+individual values. -/
+theorem hist_total (r0 r1 : Rat) (n : Nat) (log : Bool) (xs : List (Val × Rat)) (b : List Rat)
+    (hn : 0 < n) (hlog : log = true → 0 < min r0 r1)
+    (h : implHist r0 r1 n log xs = .bins b) :
+    b.length = n ∧ b.sum = specHistTotal r0 r1 xs :=
+  Lemmas.C10.implHist_total r0 r1 n log xs b hn hlog h
+
+/-- **Per-bin count, away from bin edges.** With the upper range end nudged by any `ε ≥ 0`, a value
+that lies at least `k·(w + ε/n)` above the lower range end and strictly below edge `k+1`
+(`w = (hi-lo)/n`) is counted in bin `k`. -/
+theorem hist_bin (lo hi eps x : Rat) (n k : Nat) (hn : 0 < n) (hd : lo < hi) (he : 0 ≤ eps)
+    (h1 : lo + (k : Rat) * (hi + eps - lo) / n ≤ x)
+    (h2 : x < lo + ((k : Rat) + 1) * (hi - lo) / n) :
+    implBinLin lo (hi + eps) n x = k :=
+  Lemmas.C10.implBinLin_eq lo hi eps x n k hn hd he h1 h2
+
+/-- The upper range end itself is counted in the last bin (this is what the nudge is for). -/
+theorem hist_bin_top (lo hi eps : Rat) (n : Nat) (hn : 0 < n) (hd : lo < hi) (he : 0 < eps)
+    (hsmall : ((n : Rat) - 1) * eps ≤ hi - lo) : implBinLin lo (hi + eps) n hi = n - 1 :=
+  Lemmas.C10.implBinLin_top lo hi eps n hn hd he hsmall
+
+/-- **Per-bin clause, partial** (full statement: `implHist r0 r1 n false xs = .bins (specHist …)`
+for all inputs — false on the unchanged tree, finding F10).  Under the decidable hypothesis `histP`
+(no kept value on, or within the nudge above, an interior bin edge; nudge small against the range)
+the linear histogram is the textbook equal-width histogram over the closed range. -/
+theorem hist_perbin_partial (r0 r1 : Rat) (n : Nat) (xs : List (Val × Rat)) (hn : 0 < n)
+    (hP : histP (min r0 r1) (max r0 r1) (10 * ulp (max r0 r1)) n
+      (histKeep (min r0 r1) (max r0 r1) xs) = true) :
+    implHist r0 r1 n false xs = .bins (specHist r0 r1 n false xs) :=
+  Lemmas.C10.implHist_perbin r0 r1 n xs hn hP
+
 end GlueVerif.C10
